@@ -593,6 +593,8 @@ class World:
         self.local_types = {}       # (function path, local name) -> pytype (sidecar typing of locals)
         self.fresh_excludes = {}    # pytype -> heap fields that cannot yet point to a newly allocated object
         self.extra_mods = None      # f(it, env) -> extra (ref, field) pairs every loop may write (spy wrappers)
+        self.disabled_auto = set()  # (loop name, local) for which the automatic stability clause was refuted
+        self.disabled_auto_ghosts = set()
         self.guarded = {}           # (class pytype, field) -> name of the lock attribute protecting it (None: no lock)
         self.pytype_overrides = {}  # (owner pytype, field) -> pytype
         self.dynamic_attrs = {'*': {'state_name', 'state_fn', 'spied_on'}}
